@@ -106,3 +106,36 @@ theorem step_values (s s' : SState) (hinv : Inv s) (h : step s = .next s') :
     simp [pivotAndUpdate, pivot, h1, h2, h3]
 
 end Holpy.C16.Simplex
+
+namespace Holpy.C16.Simplex
+
+theorem mem_allVars_head (s : SState) (b : Var) (js : Jars) (h : (b, js) ∈ s.rows) : b ∈ allVars s := by
+  simp only [allVars, List.mem_flatMap]
+  exact ⟨(b, js), h, by simp⟩
+
+/-- the special case "adjacent states" of the no-repeat statement: a repair step changes the configuration
+(the leaving variable is basic before and non-basic after) -/
+theorem step_changes_conf (s s' : SState) (hinv : Inv s) (h : step s = .next s') :
+    conf (allVars s) s ≠ conf (allVars s) s' := by
+  obtain ⟨xi, xj, jars, v, hm, hc, rfl, _, _⟩ := step_next_spec s s' hinv h
+  have hxj := mem_varsOf_of_coeff_ne xj jars hc
+  have hxjnb : isBasic s xj = false := hinv.wf.nonbasic _ hm xj hxj
+  have hxib : isBasic s xi = true := (isBasic_iff s xi).mpr (List.mem_map.mpr ⟨_, hm, rfl⟩)
+  have hne : xi ≠ xj := fun e => by rw [e, hxjnb] at hxib; cases hxib
+  have hnb' : isBasic (pivotAndUpdate s xi xj v) xi = false := by
+    have hrows : (pivotAndUpdate s xi xj v).rows = (pivot s xi xj).rows := by
+      unfold pivotAndUpdate; simp [pivot, rowOf]
+    cases hb : isBasic (pivotAndUpdate s xi xj v) xi with
+    | false => rfl
+    | true =>
+      have hb' : isBasic (pivot s xi xj) xi = true := by simpa [isBasic, hrows] using hb
+      rcases (isBasic_pivot s xi xj jars hinv.wf.heads hm xi).mp hb' with ⟨_, h2⟩ | h1
+      · exact absurd rfl h2
+      · exact absurd h1 hne
+  obtain ⟨n, hn⟩ := List.mem_iff_get.mp (mem_allVars_head s xi jars hm)
+  intro heq
+  have := congrFun heq n
+  simp only [conf, hn, code, hxib, hnb', if_true, Bool.false_eq_true, if_false] at this
+  split at this <;> (try split at this) <;> simp at this
+
+end Holpy.C16.Simplex
